@@ -56,6 +56,22 @@ class RealCodeHang(Exception):
     """The real code did not return within the time limit (e.g. a rejection loop that never accepts)."""
 
 
+class RealCodeSkipped(Exception):
+    """Not run: the real code hung several times before (circuit breaker).  Never a finding."""
+
+
+def _run(fn, *a, **kw):
+    """Run one oracle check; returns its verdict string or None (None also when skipped)."""
+    try:
+        return fn(*a, **kw)
+    except RealCodeSkipped:
+        return None
+    except RealCodeHang as e:
+        return "the call did not return (%s)" % e
+    except Exception as e:
+        return "raised %s: %s" % (core.err_name(e), str(e)[:200])
+
+
 class _guard:
     """Bound the time one call into the real code may take (SIGALRM; main thread only)."""
 
@@ -67,7 +83,7 @@ class _guard:
     def __enter__(self):
         import signal
         if _guard.hangs >= 4:  # circuit breaker: the real code keeps hanging; fail fast from now on
-            raise RealCodeHang("skipped after %d earlier hangs" % _guard.hangs)
+            raise RealCodeSkipped("skipped after %d earlier hangs" % _guard.hangs)
 
         def on_alarm(signum, frame):
             _guard.hangs += 1
@@ -293,7 +309,7 @@ def real_ops(seed, ops, via_srandom):
             try:
                 with _guard(3.0):
                     out.append(_do_op(mod, dr, op))
-            except RealCodeHang as e:
+            except (RealCodeHang, RealCodeSkipped) as e:
                 out.append(_err(e))
                 break
             except Exception as e:
@@ -315,12 +331,12 @@ def corr_prng(ctx, drv):
         real = [g.next() for _ in range(nout)]
         model = [int(x) for x in core.parse_sx(out)]
         ctx.count("prng:stream")
-        ctx.case({"seed": s, "first": real[:3]}, ("stream", s & 0xFFFFFFFF))
+        ctx.case({"seed": s, "first": [_short(x) for x in real[:3]]}, ("stream", s & 0xFFFFFFFF))
         if real != model:
             i = next(i for i in range(nout) if real[i] != model[i])
-            ctx.disagree("xorshift-stream", seed=s, index=i, real=real[i], model=model[i])
+            ctx.disagree("xorshift-stream", seed=s, index=i, real=_short(real[i]), model=model[i])
         if not all(0 <= x < D32 for x in real):
-            ctx.disagree("xorshift-range", seed=s, value=max(real))
+            ctx.disagree("xorshift-range", seed=s, value=_short(max(real)))
     ncase = ctx.n(1500, 12000)
     cases = []
     for i in range(ncase):
@@ -334,7 +350,7 @@ def corr_prng(ctx, drv):
         if hangs >= 3:
             break
         real = real_ops(seed, ops, via)
-        if real and real[-1] == "(err RealCodeHang)":
+        if real and real[-1] in ("(err RealCodeHang)", "(err RealCodeSkipped)"):
             hangs += 1
         model = core.parse_sx(out)
         model = [sx(m) if isinstance(m, list) else m for m in model] if isinstance(model, list) else model
@@ -433,6 +449,9 @@ def corr_builders(ctx, drv):
         out, out_init = outs[2 * i], outs[2 * i + 1]
         try:
             cands, real, pure = real_candidates(b, grid, seed)
+        except RealCodeSkipped:
+            ctx.count("skipped-after-hangs")
+            continue
         except RealCodeHang as e:
             cands, real, pure = None, _err(e), True
         key = "array.candidates:" + ("sym" if b.symmetry else "nosym") + ("+move" if b.use_move else "") + \
@@ -657,6 +676,9 @@ def corr_generate(ctx, drv):
             r1, pure1, sound1 = real_generate(pat, mock, seed, 12345)
             pat2 = build_py(spec)
             r2, pure2, sound2 = real_generate(pat2, mock, seed, 999)
+        except RealCodeSkipped:
+            ctx.count("skipped-after-hangs")
+            continue
         except RealCodeHang as e:
             ctx.disagree("generate-hang", pattern=sx(pat_sx(pat)), seed=seed, what=str(e))
             continue
@@ -737,10 +759,7 @@ def corr_segmentation(ctx):
         kw = SEG_CONFIGS[i % len(SEG_CONFIGS)]
         seed = ctx.rng.randint(0, 1000)
         ctx.count("segmentation:reproducibility")
-        try:
-            d = seg_check(seed, kw)
-        except Exception as e:
-            d = "raised %s: %s" % (core.err_name(e), e)
+        d = _run(seg_check, seed, kw)
         ctx.case({"segmentation": kw, "seed": seed, "reproducible": d is None}, ("seg", seed, repr(kw)))
         if d:
             ctx.disagree("segmentation-global-random", seed=seed, config=kw, what=d)
@@ -765,14 +784,43 @@ def correspond(ctx):
         "purity (no mutation of earlier problems) and independence from `random`'s global state are decided by this run, not by a theorem",
     ]
     drv = core.Driver()
+    _guard.hangs = 0
     corr_prng(ctx, drv)
     corr_builders(ctx, drv)
     corr_generate(ctx, drv)
     corr_segmentation(ctx)
+    if not ctx.quick():
+        for f in search(ctx, None):
+            ctx.disagree("oracle:" + f.signature, what=f.what[:400])
+        ctx.extra["semantic_differential"] = (
+            "thorough tier: the plain-Python oracles of search() (randint on [-5,5]^2 and wide ranges, choice/shuffle/random "
+            "statistics, ArrayBuilder2D option invariants on 1500 random walks, neighbour and whole-run oracles) are run on the "
+            "real code as well (a bounded test, not a proof)")
 
 
 # ---------------------------------------------------------------------------------------------
 # search: independent oracles on the real code
+
+def check_xorshift_range(seed, n=3000):
+    dr, _, _, _ = _mods()
+    g = dr.XorShift(seed)
+    for i in range(n):
+        x = g.next()
+        if not (isinstance(x, int) and 0 <= x < D32):
+            return "XorShift(%d).next() call %d returned a value of %d bits, outside [0, 2^32)" % (seed, i, x.bit_length())
+    dr.seed(seed)
+    for i in range(n):
+        r = dr.random()
+        if not (0.0 <= r < 1.0):
+            return "random() call %d after seed(%d) returned %r, outside [0, 1)" % (i, seed, r)
+    return None
+
+
+def _short(x):
+    if isinstance(x, int) and x.bit_length() > 256:
+        return "<int of %d bits>" % x.bit_length()
+    return x
+
 
 @guarded(30.0)
 def check_randint(a, b, seed, draws=None):
@@ -1000,14 +1048,19 @@ def search(ctx, why):
     def add(sig, what, data):
         if sig not in found:
             found[sig] = Finding(sig, what, data)
+    _guard.hangs = 0
+    for seed in (0, 1, -1, 12345, D32 + 7):
+        ctx.count("search:xorshift-range")
+        d = check_xorshift_range(seed)
+        if d:
+            add("xorshift:range", d, {"kind": "xorshift", "seed": seed})
     # randint on all (a, b) in [-5, 5]^2
     for a in range(-5, 6):
         for b in range(-5, 6):
             ctx.count("search:randint")
-            try:
-                d = check_randint(a, b, seed=7)
-            except Exception as e:
-                d = "randint(%d, %d) raised %s: %s" % (a, b, core.err_name(e), e)
+            d = _run(check_randint, a, b, seed=7)
+            if d and not d.startswith("randint"):
+                d = "randint(%d, %d): %s" % (a, b, d)
             if d:
                 sig = "randint:lower-bound" if a <= b else "randint:no-valueerror"
                 add(sig, "deterministic_random." + d + " — the documented range is [a, b]", {"kind": "randint", "a": a, "b": b, "seed": 7})
@@ -1017,22 +1070,22 @@ def search(ctx, why):
             with _guard(5.0):
                 dr.randint(*wide)
             add("randint:too-wide", "randint%r did not raise ValueError" % (wide,), {"kind": "randint-wide", "a": wide[0], "b": wide[1]})
-        except ValueError:
+        except (ValueError, RealCodeSkipped):
             pass
+        except Exception as e:
+            add("randint:too-wide", "randint%r raised %s instead of ValueError" % (wide, core.err_name(e)),
+                {"kind": "randint-wide", "a": wide[0], "b": wide[1]})
     for a, w in ((0, 3 << 30), (-7, 3 << 30), (5, (1 << 31) + 1), (0, D32 - 1), (-(1 << 31), D32), (0, 5 << 29), (0, 1000)):
         ctx.count("search:randint-wide")
-        try:
-            d = check_randint_wide(a, w, seed=11)
-        except Exception as e:
-            d = "randint(%d, %d) raised %s: %s" % (a, a + w - 1, core.err_name(e), e)
+        d = _run(check_randint_wide, a, w, seed=11)
+        if d and not d.startswith("randint"):
+            d = "randint(%d, %d): %s" % (a, a + w - 1, d)
         if d:
-            add("randint:not-uniform", "deterministic_random." + d, {"kind": "randint-uniform", "a": a, "w": w, "seed": 11})
+            add("randint:lower-bound" if "outside the range" in d else "randint:not-uniform", "deterministic_random." + d,
+                {"kind": "randint-uniform", "a": a, "w": w, "seed": 11})
     for seed in range(ctx.n(3, 10)):
         ctx.count("search:choice-shuffle-random")
-        try:
-            d = check_choice_shuffle_random(seed)
-        except Exception as e:
-            d = "raised %s: %s" % (core.err_name(e), e)
+        d = _run(check_choice_shuffle_random, seed)
         if d:
             add("prng:" + d.split(" ")[0], d, {"kind": "csr", "seed": seed})
     # builder clauses on the real objects
@@ -1042,20 +1095,14 @@ def search(ctx, why):
         spec[8] = None
         spec = tuple(spec)
         ctx.count("search:builder")
-        try:
-            d = check_builder_invariants(spec, seed=i)
-        except Exception as e:
-            d = "raised %s: %s" % (core.err_name(e), e)
+        d = _run(check_builder_invariants, spec, seed=i)
         if d:
             add("builder:" + d.split(":")[0].split(" ")[0], "ArrayBuilder2D%r seed %d: %s" % (spec[1:], i, d),
                 {"kind": "builder", "spec": list(spec), "seed": i})
     for i in range(ctx.n(150, 1500)):
         spec = gen_pattern_spec(rng, small=True)
         ctx.count("search:neighbours")
-        try:
-            d = check_pattern_neighbours(spec, seed=i)
-        except Exception as e:
-            d = "raised %s: %s" % (core.err_name(e), e)
+        d = _run(check_pattern_neighbours, spec, seed=i)
         if d:
             add("neighbours:" + "-".join(d.split(" ")[:3]), "pattern %s seed %d: %s" % (sx(pat_sx(build_py(spec)))[:300], i, d),
                 {"kind": "neighbours", "spec": _jsonable(spec), "seed": i})
@@ -1064,21 +1111,18 @@ def search(ctx, why):
         mock = Mock(rng, small=True)
         spec = gen_pattern_spec(rng, small=True)
         ctx.count("search:generate")
-        try:
-            d = check_generate(spec, mock, seed=i)
-        except Exception as e:
-            d = "raised %s: %s" % (core.err_name(e), e)
+        d = _run(check_generate, spec, mock, seed=i)
         if d:
-            add("generate:" + d.split(" ")[1], d, {"kind": "generate", "spec": _jsonable(spec), "seed": i, "mock": mock.__dict__})
+            add("generate:" + "-".join(d.split(" ")[1:3]), d, {"kind": "generate", "spec": _jsonable(spec), "seed": i, "mock": mock.__dict__})
     # segmentation
     for i, kw in enumerate(SEG_CONFIGS):
         for seed in range(3):
             ctx.count("search:segmentation")
-            try:
-                d = seg_check(seed, kw)
-            except Exception as e:
-                d = "raised %s: %s" % (core.err_name(e), e)
-            if d:
+            d = _run(seg_check, seed, kw)
+            if d and not d.startswith("same deterministic seed"):
+                add("segmentation:" + d.split(" ")[0], "SegmentationBuilder2D(3, 3, %r) seed %d: %s" % (kw, seed, d),
+                    {"kind": "segmentation", "seed": seed, "config": kw})
+            elif d:
                 add("segmentation:global-random",
                     "SegmentationBuilder2D(3, 3, %s) under use_deterministic_prng(True, %d): %s — it draws from the global `random` "
                     "module (random.choice / random.randint in generator/segmentation.py) instead of cspuz.generator.srandom" % (
@@ -1113,6 +1157,9 @@ def replay(ctx, data):
     if k == "randint":
         d = check_randint(data["a"], data["b"], data["seed"])
         return Finding("randint:lower-bound" if data["a"] <= data["b"] else "randint:no-valueerror", d, data) if d else None
+    if k == "xorshift":
+        d = check_xorshift_range(data["seed"])
+        return Finding("xorshift:range", d, data) if d else None
     if k == "randint-uniform":
         try:
             d = check_randint_wide(data["a"], data["w"], data["seed"])
@@ -1122,10 +1169,13 @@ def replay(ctx, data):
     if k == "randint-wide":
         dr, _, _, _ = _mods()
         try:
-            dr.randint(data["a"], data["b"])
+            with _guard(5.0):
+                dr.randint(data["a"], data["b"])
             return Finding("randint:too-wide", "no ValueError", data)
         except ValueError:
             return None
+        except Exception as e:
+            return Finding("randint:too-wide", "raised %s instead of ValueError" % core.err_name(e), data)
     if k == "csr":
         d = check_choice_shuffle_random(data["seed"])
         return Finding("prng:" + d.split(" ")[0], d, data) if d else None
